@@ -13,6 +13,29 @@ MUTATIONS = [
      "edits": [(R + "git/canonical.rs", "                if base == *other || base == *head {\n                    *candidates.entry(base).or_default() += 1;\n                }", "                *candidates.entry(base).or_default() += 1;")]},
     {"id": "m39c", "prop": "C03", "expect": r"advance:descendant|diverge",
      "edits": [(R + "git/canonical.rs", "            if base == *longest {\n                // `head` is a successor of `longest`. Update `longest`.", "            if base == *longest || base != **head {\n                // `head` is a successor of `longest`. Update `longest`.")]},
+    # ---- C25
+    {"id": "m50a", "prop": "C25", "expect": r"announcer:local:synced_with|announcer:local:continue",
+     "edits": [(R + "node/sync/announce.rs", "        if node == self.local_node {\n            return ControlFlow::Continue(self.progress());\n        }\n", "")]},
+    {"id": "m50b", "prop": "C25", "expect": r"announcer:local:new:synced",
+     "edits": [(R + "node/sync/announce.rs", "        config.synced.remove(&config.local_node);\n", "")]},
+    {"id": "m50c", "prop": "C25", "expect": r"fetcher:target:table",
+     "edits": [(R + "node/sync/fetch.rs", "None => (succeeded >= min).then_some(SuccessfulOutcome::MinReplicas { succeeded }),", "None => (succeeded > min).then_some(SuccessfulOutcome::MinReplicas { succeeded }),")]},
+    {"id": "m50d", "prop": "C25", "expect": r"announcer:target:table",
+     "edits": [(R + "node/sync/announce.rs", "            || preferred >= self.target.preferred_seeds.len();", "            || synced >= self.target.preferred_seeds.len();")]},
+    {"id": "m50e", "prop": "C25", "expect": r"fetcher:handout:next_fetch",
+     "edits": [(R + "node/sync/fetch.rs", "            .map(|Ready { node, addr }| (node, addr))\n            .filter(|(node, _)| self.include_node(node))", "            .map(|Ready { node, addr }| (node, addr))")]},
+    {"id": "m50f", "prop": "C25", "expect": r"fetcher:handout:next_node",
+     "edits": [(R + "node/sync/fetch.rs", "        let include_node = |node: &NodeId| results.get(node).is_none() && local_node != *node;", "        let include_node = |node: &NodeId| results.get(node).is_none() || local_node != *node;")]},
+    {"id": "m50g", "prop": "C25", "expect": r"fetcher:count:",
+     "edits": [(R + "node/sync/fetch.rs", "                succeeded += 1;\n                if self.target.seeds.contains(nid) {\n                    preferred += 1;\n                }", "                if self.target.seeds.contains(nid) {\n                    preferred += 1;\n                    succeeded += 1;\n                }")]},
+    {"id": "m50h", "prop": "C25", "expect": r"fetcher:record:",
+     "edits": [(R + "node/sync/fetch.rs", "        if self.include_node(&node) {\n            self.results.push(node, result);\n        }", "        self.results.push(node, result);")]},
+    {"id": "m50i", "prop": "C25", "expect": r"table:lower_bound",
+     "edits": [(R + "node/sync.rs", "            Self::Range(ReplicationRange { lower: min, .. }) => *min,", "            Self::Range(ReplicationRange { upper: min, .. }) => *min,")]},
+    {"id": "m50j", "prop": "C25", "expect": r"announcer:report:timed_out",
+     "edits": [(R + "node/sync/announce.rs", "        match self.is_target_reached() {\n            None => TimedOut {", "        match self.is_target_reached().filter(|_| self.to_sync.is_empty()) {\n            None => TimedOut {")]},
+    {"id": "m50k", "prop": "C25", "expect": r"announcer:target:table",
+     "edits": [(R + "node/sync/announce.rs", "            Some(max) => (reached_preferred && synced >= max)", "            Some(max) => (reached_preferred || synced >= max)")]},
     # ---- C26 / C27 / C21
     {"id": "m36a", "prop": "C26", "expect": r"boundary|panic",
      "edits": [("crates/radicle-term/src/cell.rs", "                self[..boundary + ws].to_owned()", "                self[..boundary + 1].to_owned()")]},
